@@ -3,7 +3,7 @@ import itertools
 import etf, ordlib, C12
 
 ID = "C11"
-GEN_FILES = ["Ranks.v"]
+GEN_FILES = ["Ranks.v", "HashFields.v"]
 RULE = ("all ordered pairs of the C12 universe (every rank, mixed numeric representations around 2^53/2^63, equal-length bigs, binaries vs "
         "bit-strings, proper vs improper lists, -0.0/0.0, funs differing in arity, containers of those); laws checked on the implementation's "
         "answers: antisymmetry on every pair, transitivity on every triple, == implies Equal, == implies equal hash, BorrowedTerm::cmp = "
